@@ -260,4 +260,53 @@ Section InitTie.
     exists i. rewrite P. split; [exact A|]. rewrite N, Hws. cbn [optlen]. unfold zlen.
     destruct (iz_random iz), (iz_grid iz), (iz_vertices iz); cbn [cnt optz] in *; lia.
   Qed.
+  (* C02 for the generated Initializer: every initial position is feasible -- the random ones and the random padding by rejection sampling,
+     the warm starts by the constraint filter -- provided the two abstract sections (grid, vertices) return feasible positions only *)
+  Lemma filter_res_all {A} (g : A -> res bool) l out : filter_res g l = Ok out -> Forall (fun x => g x = Ok true) out.
+  Proof.
+    revert out. induction l as [|y l IH]; intros out H; cbn in H; [inversion H; constructor|].
+    destruct (g y) as [b|] eqn:Ey; cbn in H; [|discriminate]. destruct (filter_res g l) as [r|] eqn:Er; cbn in H; [|discriminate].
+    inversion H; subst. specialize (IH r eq_refl). destruct b; [constructor; assumption|assumption].
+  Qed.
+
+  Theorem source_init_positions_feasible fuel self0 iz s' :
+    (forall s n s1 l, init_grid_search s n = Ok (s1, l) -> Forall (fun p => not_in_constraint sp cons p = Ok true) l) ->
+    (forall s n s1 l, init_vertices s n = Ok (s1, l) -> Forall (fun p => not_in_constraint sp cons p = Ok true) l) ->
+    g_Initializer_init sp cons names init_grid_search init_vertices fuel self0 iz = Ok s' ->
+    Forall (fun p => not_in_constraint sp cons p = Ok true) (in_init_positions_l s').
+  Proof.
+    intros HG HV. unfold g_Initializer_init. cbv zeta. intros E.
+    assert (SP : exists s0, g_Initializer_set_pos sp cons names init_grid_search init_vertices fuel s0 = Ok s').
+    { destruct iz as [o1 o2 o3 o4]. cbn [iz_random iz_grid iz_vertices iz_warm_start] in E.
+      destruct o1 as [n1|], o2 as [n2|], o3 as [n3|], o4 as [w4|]; cbn [py_is_none negb py_dict_get bind] in E;
+        (match type of E with bind ?m _ = _ => destruct m as [s1|e] eqn:SPE; [|discriminate] end; cbn [bind] in E; inversion E; subst s1; eexists; exact SPE). }
+    destruct SP as [s0 SP]. clear E. revert SP. unfold g_Initializer_set_pos. cbv zeta. intros E.
+    match type of E with bind ?m _ = _ => destruct m as [[ll1 s1]|e] eqn:B1; [|discriminate] end. cbn [bind] in E.
+    change (blk (iz_random (in_initialize s0)) (g_Initializer_init_random_search sp cons fuel) [] s0 = Ok (ll1, s1)) in B1.
+    match type of E with bind ?m _ = _ => destruct m as [[ll2 s2]|e] eqn:B2; [|discriminate] end. cbn [bind] in E.
+    change (blk (iz_grid (in_initialize s1)) init_grid_search ll1 s1 = Ok (ll2, s2)) in B2.
+    match type of E with bind ?m _ = _ => destruct m as [[ll3 s3]|e] eqn:B3; [|discriminate] end. cbn [bind] in E.
+    change (blk (iz_vertices (in_initialize s2)) init_vertices ll2 s2 = Ok (ll3, s3)) in B3.
+    match type of E with bind ?m _ = _ => destruct m as [[ll4 s4]|e] eqn:B4; [|discriminate] end. cbn [bind] in E.
+    change (blk (iz_warm_start (in_initialize s3)) (g_Initializer_init_warm_start sp cons names) ll3 s3 = Ok (ll4, s4)) in B4.
+    set (OKP := fun p : pos => not_in_constraint sp cons p = Ok true).
+    assert (step : forall {T} (o : option T) F ll s ll' s1',
+               (forall s n s1 l, F s n = Ok (s1, l) -> Forall OKP l) -> blk o F ll s = Ok (ll', s1') -> Forall OKP (concat ll) -> Forall OKP (concat ll')).
+    { intros T o F ll s ll' s1' HF B HL. destruct (blk_spec _ _ _ _ _ _ B) as [(_ & -> & _) | (n & l & _ & EF & ->)]; [exact HL|].
+      rewrite concat_app. cbn [concat]. rewrite app_nil_r. apply Forall_app. split; [exact HL|exact (HF _ _ _ _ EF)]. }
+    assert (HRf : forall s n s1' l, g_Initializer_init_random_search sp cons fuel s n = Ok (s1', l) -> Forall OKP l).
+    { intros s n s1' l H. destruct (init_random_search_spec _ _ _ _ _ H) as (_ & FF & _). eapply Forall_impl; [|exact FF]. intros p [_ Hp]. exact Hp. }
+    assert (HWf : forall s ws s1' l, g_Initializer_init_warm_start sp cons names s ws = Ok (s1', l) -> Forall OKP l).
+    { intros s ws s1' l H. pose proof (init_warm_start_tie s ws) as T. rewrite H in T. destruct T as (T1 & _).
+      unfold init_warm_start in T1. destruct (map_res (warm_start_position sp names) ws) as [ps|]; cbn [bind] in T1; [|discriminate].
+      exact (filter_res_all _ _ _ T1). }
+    assert (F1 : Forall OKP (concat ll1)) by (apply (step _ _ _ _ _ _ _ HRf B1); constructor).
+    assert (F2 : Forall OKP (concat ll2)) by (apply (step _ _ _ _ _ _ _ HG B2 F1)).
+    assert (F3 : Forall OKP (concat ll3)) by (apply (step _ _ _ _ _ _ _ HV B3 F2)).
+    assert (F4 : Forall OKP (concat ll4)) by (apply (step _ _ _ _ _ _ _ HWf B4 F3)).
+    match type of E with bind ?m _ = _ => destruct m as [[s5 l5]|e] eqn:FR; [|discriminate] end. cbn [bind] in E. inversion E; subst s'. clear E.
+    destruct (fill_rest_random_spec _ _ _ _ _ FR) as (fill & -> & _ & FF & _).
+    destruct s4; destruct s5; cbn in *. apply Forall_app. split; [exact F4|].
+    eapply Forall_impl; [|exact FF]. intros p [_ Hp]. exact Hp.
+  Qed.
 End InitTie.
